@@ -1,7 +1,9 @@
 """C09 — exceptions raised by user callbacks are delivered as on_error (S2)."""
 from __future__ import annotations
 
-from ..astutil import short
+import ast
+
+from ..astutil import short, u
 from ..core import Report
 from ..engines.callguard import CallGuard
 from ..frontend import Repo
@@ -54,6 +56,17 @@ def check(repo: Repo, rep: Report) -> None:
             if inv.site.ctx.tries:
                 from ..engines.callguard import handler_catches_exception, handler_routes
                 for t in inv.site.ctx.tries:
+                    # a narrower handler ahead of the routing one (`except StopIteration: on_completed()`) takes that class of the
+                    # callback's exceptions away from on_error: the try around a user callback catches for the callback alone
+                    is_next = isinstance(inv.site.node, ast.Call) and isinstance(inv.site.node.func, ast.Name) and inv.site.node.func.id == "next"
+                    for h in (t.handlers if any(handler_catches_exception(x) for x in t.handlers) and not is_next else ()):
+                        if handler_catches_exception(h):
+                            break
+                        if h.type is not None and not handler_routes(h):
+                            rep.ob("E2-routes", g, f"`except {u(h.type)}` ahead of the routing handler around {short(inv.site.node, 50)}", False,
+                                   f"the try around the user callback `{short(inv.site.node, 50)}` also has `except {u(h.type)}`, which does not deliver the "
+                                   f"exception: a {u(h.type)} raised by the callback is taken for the library's own signal (end of iteration, "
+                                   f"missing key) — the sequence completes or continues instead of failing with that exception")
                     for h in t.handlers:
                         if handler_catches_exception(h):
                             rep.ob("E2-routes", g, f"handler around {short(inv.site.node, 50)}", handler_routes(h),
